@@ -227,7 +227,7 @@ def _bool_origin_fields(fn, local):
     return out
 
 
-def gate_edges(fn, adt, field, fx=None):
+def gate_edges(fn, adt, field, fx=None, weak=False):
     """All CFG edges (u,v,value) where u switches on a bool derived from `adt.field`
     (or, with adt == "call", from the boolean result of a call to `field`):
     value is the truth value of the *field* on that edge (negations folded in)."""
@@ -263,19 +263,21 @@ def gate_edges(fn, adt, field, fx=None):
         # a constant that may also reach the operand (another arm of an inlined helper): the edge taken on that
         # constant says nothing about the field
         consts = set(bool(r[1]) ^ bool(r[2]) ^ bool(flip) for r in reads if r[0] == "constval")
-        if True not in consts:
+        # (weak: the edge only has to exclude the *opposite* outcome of the test, which a constant does too)
+        if weak or True not in consts:
             out.append((bi, true_t, True))
-        if False not in consts:
+        if weak or False not in consts:
             out.append((bi, false_t, False))
     return out
 
 
-def gated(fn, block, adt, field, want, fx=None):
-    """Is `block` reachable only through an edge on which adt.field == want?"""
+def gated(fn, block, adt, field, want, fx=None, weak=False):
+    """Is `block` reachable only through an edge on which adt.field == want?  (weak: ... on which the field
+    cannot be `not want`: a helper's early `Ok(false)` for a missing file counts as "not the same file")"""
     cfg = cfg_of(fn)
     if block not in cfg.reachable():
         return True, "unreachable"
-    edges = [(u, v) for (u, v, val) in gate_edges(fn, adt, field, fx) if val == want]
+    edges = [(u, v) for (u, v, val) in gate_edges(fn, adt, field, fx, weak) if val == want]
     if not edges:
         return False, "no switch on %s.%s found" % (adt, field)
     r = cfg.reach([0], blocked_edges=edges)
